@@ -68,6 +68,10 @@ func c01Gen(r *rand.Rand, tier string) any {
 					}
 				}
 			}
+			if r.IntN(14) == 0 {
+				// REPL / watch: a dry run with options, (N=1: Reload,) then Run with nil options
+				op = opSpec{Op: "build", Label: op.Label, DryNil: true, N: r.IntN(2)}
+			}
 			sc.Ops = append(sc.Ops, op)
 		case k < 18:
 			sc.Ops = append(sc.Ops, opSpec{Op: "gc"})
